@@ -392,11 +392,16 @@ fn exec(line: &str, tmp: &std::path::Path) -> (String, String) {
 // ---------------------------------------------------------------- oracle (model-independent)
 
 fn oracle(line: &str, res: &str, out: &mut Out, tmp: &std::path::Path) {
+    let ws: Vec<&str> = line.split_whitespace().collect();
     if res == "panic" {
-        out.oracle_fail("no-panic", line, "the routine panicked (caught by catch_unwind)");
+        let mut what = "the routine panicked (caught by catch_unwind)".to_string();
+        if let ["loadcache", _, _, "gen", desc, ..] = ws.as_slice() {
+            // show the concrete cache file the op line denotes
+            what.push_str(&format!("; cache file: {}", render_cache(desc)));
+        }
+        out.oracle_fail("no-panic", line, &what);
         return;
     }
-    let ws: Vec<&str> = line.split_whitespace().collect();
     match ws.as_slice() {
         ["regfmt", m, o] => {
             // parsing the formatter's output returns the original value
